@@ -12,7 +12,7 @@ static const int64_t T_END = 1577923200LL;
 struct Targets { std::vector<TimeZone> tz; };
 static uint64_t g_n = 0, g_conv = 0, g_cmp = 0, g_skipped = 0;
 
-static void check_instant(const TimeZone& tz, const char* tzname, int64_t t64, int32_t off_s, const Targets& tg, bool judge_offset) {
+static void check_instant(const TimeZone& tz, const char* tzname, int64_t t64, int32_t off_s, const Targets& tg, bool judge_offset, bool heavy = true) {
   acetime_t t = (acetime_t)t64;
   journal("instant", t64, off_s);
   // domain: local time must be representable and a day away from the int32 limits (README); else C09's subject
@@ -36,6 +36,7 @@ static void check_instant(const TimeZone& tz, const char* tzname, int64_t t64, i
   int64_t days = t64 >= 0 ? t64 / 86400 : -((-t64 + 86399) / 86400);
   if (z.toEpochDays() != days || o.toEpochDays() != days) bad("toEpochDays", z.toEpochDays());
   if (z.toUnixDays() != days + 10957) bad("toUnixDays", z.toUnixDays());
+  if (!heavy) return;   // the exhaustive per-second sweep runs the conversion/comparison block on every 61st instant
   // conversions never change the instant
   for (size_t i = 0; i < tg.tz.size(); i++) {
     ZonedDateTime c = z.convertToTimeZone(tg.tz[i]);
@@ -80,7 +81,7 @@ int main(int argc, char** argv) {
   for (int m : offs) {
     TimeZone tz = (m % 60 == 0 && m > 0) ? TimeZone::forTimeOffset(TimeOffset::forMinutes(m - 60), TimeOffset::forMinutes(60)) : TimeZone::forTimeOffset(TimeOffset::forMinutes(m));
     std::string nm = fmt("manual(%+d min)", m);
-    for (int64_t t = s0 + (int64_t)((a.seed * 131 + oi * 17) % stride); t <= s1; t += stride) check_instant(tz, nm.c_str(), t, m * 60, a.thorough ? manual_only : tg, true);
+    for (int64_t t = s0 + (int64_t)((a.seed * 131 + oi * 17) % stride); t <= s1; t += stride) check_instant(tz, nm.c_str(), t, m * 60, a.thorough ? manual_only : tg, true, !a.thorough || (t % 61 == 0));
     oi++;
     // boundaries
     std::vector<int64_t> cs = {0, lo + 86400, hi - 86400, -UNIX, (int64_t)INT32_MAX - UNIX};
